@@ -6,7 +6,7 @@
    interleavings of the internal steps, by [vm_compute]; this validates the model, it is not
    the proof) and the number of leaked statements is one the model can end with.
    [spec_holds]: the property's clauses evaluated on what gorm did. *)
-From Verif Require Export Base C14_Model.
+From Verif Require Export Base C14_Model C14_Plumb.
 
 (* ---- decidable equalities ------------------------------------------------------------ *)
 Definition choice_code (c : choice) : nat :=
@@ -142,11 +142,13 @@ Record case := mk_case {
   o_hang : bool;          (* some goroutine did not finish within the time limit *)
   o_leaked : nat;         (* pool-level statements handed out by the cache, still open at quiescence *)
   o_openstmts : nat;      (* driver statements open at quiescence (recording driver) *)
-  o_wrongrows : nat       (* operations that returned no error but other rows than without the cache *)
+  o_wrongrows : nat;      (* operations that returned no error but other rows than without the cache *)
+  o_races : nat;          (* data races the Go race detector reported while the case ran *)
+  c_plumb : list plumb    (* session-plumbing observations (C14_Plumb.v); [] for schedule cases *)
 }.
 
 Definition model_agrees (c : case) : bool :=
-  negb (o_hang c) && (o_wrongrows c =? 0) &&
+  negb (o_hang c) && (o_wrongrows c =? 0) && (o_races c =? 0) && forallb plumb_model_agrees (c_plumb c) &&
   match follow explore_fuel (c_trace c) [init_g (c_guard c) (c_progs c)] with
   | Some fin => existsb (fun s => all_done s && (length (leaked s) =? o_leaked c)) fin
   | None => false
@@ -266,6 +268,7 @@ Definition spec_holds (c : case) : bool :=
   && list_eqb Nat.eqb (map w_idx (a_win a)) (map (fun p => length p) (c_progs c))
   && count_ok (a_calls a) (a_fails a) (a_evicts a) (a_cuts a)
   && (o_wrongrows c =? 0)
-  && (o_leaked c =? 0) && (o_openstmts c =? 0).
+  && (o_leaked c =? 0) && (o_openstmts c =? 0)
+  && (o_races c =? 0) && forallb plumb_spec (c_plumb c).
 
 Definition check_case (c : case) : N := code_of (model_agrees c) (spec_holds c).
